@@ -15,11 +15,11 @@ from zcsim.world import pkg_file_key
 SCHEMA_URL = "file:///sim/schema/s.xml"
 
 
-def comp_type(name, implements, conv=1, required=False):
+def comp_type(name, implements, conv=1, required=False, dt=None):
     return {"name": name, "kind": "concrete", "extends": None,
             "implements": implements, "keytype": None, "datatype": None,
             "items": [{"kind": "key", "name": "pk", "attribute": None,
-                       "datatype": "zcsim.simdt.conv_%d" % conv,
+                       "datatype": dt or "zcsim.simdt.conv_%d" % conv,
                        "required": required,
                        "default": None if required else "dflt",
                        "handler": None}]}
@@ -37,7 +37,12 @@ def add_import_surface(rng, ir):
     for k in range(npk):
         pname = "zcsim_p%d" % k
         packages[pname] = {"is_package": True}
-        t = comp_type("pt%d" % k, "abx", conv=k + 1)
+        dt = None
+        if k == 1 and rng.random() < 0.35:
+            # a datatype whose dotted name differs from the one package 0
+            # uses only in letter case (another function)
+            dt = "zcsim.simdt.Conv_1"
+        t = comp_type("pt%d" % k, "abx", conv=k + 1, dt=dt)
         ctypes[pname] = [t]
         imports = []
         if k == 0 and npk == 2 and rng.random() < 0.6:
@@ -48,6 +53,14 @@ def add_import_surface(rng, ir):
                 G.render_component([extra])
             imports.append(("package", pname, "extra.xml"))
         pkgfiles[pkg_file_key(pname)] = G.render_component([t], imports)
+    if rng.random() < 0.2:
+        # a component with a mistake that the schema machinery does not
+        # notice: a datatype name that resolves to a MODULE
+        packages["zcsim_pmod"] = {"is_package": True}
+        tm = comp_type("ptmod", "abx", dt="zcsim.simdt")
+        tm["items"][0]["default"] = None
+        ctypes["zcsim_pmod"] = [tm]
+        pkgfiles[pkg_file_key("zcsim_pmod")] = G.render_component([tm])
     return packages, pkgfiles, ctypes
 
 
@@ -63,6 +76,10 @@ def import_lines(rng, packages, ctypes, names):
                     nm = "in%d" % len(names)
                     names.append(nm)
                     if rng.random() < 0.5:
+                        out.append({"t": "<%s %s/>" % (t["name"], nm),
+                                    "role": "empty", "type": t["name"],
+                                    "name": nm, "slot": "*", "multi": True})
+                    elif t["items"][0]["datatype"] == "zcsim.simdt":
                         out.append({"t": "<%s %s/>" % (t["name"], nm),
                                     "role": "empty", "type": t["name"],
                                     "name": nm, "slot": "*", "multi": True})
